@@ -1,13 +1,17 @@
 """C18 - staleness depends only on instants, not on time zone or naive/aware form."""
 import datetime as dt
 import itertools
+import json
 import os
+import shutil
+import tempfile
 import time
 import zoneinfo
 
 import uberjob
 from hypothesis import given, strategies as st
 from uberjob._value_store import ValueStore
+from uberjob.stores import JsonFileStore
 
 from vlib import refmodel, runner
 from vlib.util import uncanon
@@ -48,7 +52,7 @@ TRANSITIONS = [
     ("Australia/Lord_Howe", 1633188600),  # 2021-10-02 15:30 UTC spring forward
     ("America/St_Johns", 1636259400),  # 2021-11-07 04:30 UTC fall back
 ]
-REPRS = ["naive", "utc", "fixed", "zone"]
+REPRS = ["naive", "utc", "fixed", "zone", "file"]  # "file": a bundled file store; its modified time is the file's mtime
 NAMES = ["src", "a", "b", "c", "fresh"]
 
 
@@ -74,9 +78,37 @@ class TimedStore(ValueStore):
         return represent(t, self.box["reprs"][self.name])
 
 
+class StampedFileStore(JsonFileStore):
+    """A real bundled file store (get_modified_time is the library's own, from the file's mtime); the harness
+    stamps the instant of every write with os.utime so that instants are exact and strictly increasing."""
+
+    __slots__ = ("name", "box")
+
+    def __init__(self, path, name, box):
+        super().__init__(path)
+        self.name = name
+        self.box = box
+        with open(path, "w") as f:
+            json.dump(name, f)
+        t = box["instants"][name]
+        os.utime(path, (t, t))
+
+    def write(self, value):
+        super().write(value)
+        self.box["written"].append(self.name)
+        self.box["now"] += 1
+        os.utime(self.path, (self.box["now"], self.box["now"]))
+
+
+def make_store(name, box):
+    if box["reprs"][name][0] == "file":
+        return StampedFileStore(os.path.join(box["dir"], name + ".json"), name, box)
+    return TimedStore(name, box)
+
+
 def represent(t, r):
     kind = r[0]
-    if kind == "naive":
+    if kind in ("naive", "file"):
         return dt.datetime.fromtimestamp(t)
     if kind == "utc":
         return dt.datetime.fromtimestamp(t, tz=dt.timezone.utc)
@@ -101,7 +133,7 @@ def cases(draw):
             inst[n] += 1
         seen.add(inst[n])
     has_fresh = draw(st.sampled_from([True, True, False]))
-    rep = st.one_of(st.just(["naive"]), st.just(["utc"]),
+    rep = st.one_of(st.just(["naive"]), st.just(["utc"]), st.just(["file"]), st.just(["file"]),
                     st.tuples(st.just("fixed"), st.sampled_from([-720, -300, -210, 0, 60, 330, 345, 630, 840])).map(list),
                     st.tuples(st.just("zone"), st.sampled_from(ZONES)).map(list))
     assigns = [{n: draw(rep) for n in NAMES} for _ in range(6)]
@@ -123,18 +155,18 @@ def expected(inst, has_fresh):
     return sorted({1: "a", 2: "b", 3: "c"}[i] for i in ood if i != 0)
 
 
-def run_cell(inst, has_fresh, reprs):
+def run_cell(inst, has_fresh, reprs, directory=None):
     box = {"written": [], "instants": {k: v for k, v in inst.items() if k != "fresh"}, "reprs": reprs,
-           "now": max(inst.values()) + 10}
+           "now": max(inst.values()) + 10, "dir": directory}
     plan = uberjob.Plan()
     reg = uberjob.Registry()
-    src = reg.source(plan, TimedStore("src", box))
+    src = reg.source(plan, make_store("src", box))
     a = plan.call(lambda x: ("a", x), src)
-    reg.add(a, TimedStore("a", box))
+    reg.add(a, make_store("a", box))
     b = plan.call(lambda x: ("b", x), a)
-    reg.add(b, TimedStore("b", box))
+    reg.add(b, make_store("b", box))
     c = plan.call(lambda: "c")
-    reg.add(c, TimedStore("c", box))
+    reg.add(c, make_store("c", box))
     kw = {}
     if has_fresh:
         kw["fresh_time"] = represent(inst["fresh"], reprs["fresh"])
@@ -156,13 +188,14 @@ def in_repeated_hour(zone, t):
 def check_case(ctx, case, record=True, only=None):
     inst, has_fresh = case["inst"], case["has_fresh"]
     exp = expected(inst, has_fresh)
-    uniform = [{n: [r] if r in ("naive", "utc") else (["fixed", 330] if r == "fixed" else ["zone", case["zone_hint"]])
+    uniform = [{n: [r] if r in ("naive", "utc", "file") else (["fixed", 330] if r == "fixed" else ["zone", case["zone_hint"]])
                 for n in NAMES} for r in REPRS]
     assigns = uniform + [dict(a) for a in case["assigns"]]
     zones = ZONES if case["zone_hint"] in ZONES else ZONES + [case["zone_hint"]]
     cells = [(z, i) for z in zones for i in range(len(assigns))]
     if only is not None:
         cells = [tuple(only)]
+    directory = tempfile.mkdtemp(prefix="c18-")
     try:
         for z, ai in cells:
             reprs = assigns[ai]
@@ -173,14 +206,15 @@ def check_case(ctx, case, record=True, only=None):
             vals = sorted(inst[n] for n in used)
             close = any(0 < y - x <= max(off, 1) for x, y in zip(vals, vals[1:]))
             rep_hour = any(in_repeated_hour(z, inst[n]) for n in used)
-            naive_used = any(reprs[n][0] == "naive" for n in used)
+            naive_used = any(reprs[n][0] in ("naive", "file") for n in used)
             nt = ((len(kinds) > 1 or off != 0) and close) or (rep_hour and naive_used)
             key_case = {"case": case, "tz": z, "assign": ai}
             if record:
                 ctx.case(key_case, nt, [f"tz:{z}", "mixed_repr" if len(kinds) > 1 else "uniform:" + next(iter(kinds))[0]]
+                         + (["file_store"] if any(reprs[n][0] == "file" for n in used) else [])
                          + (["repeated_hour"] if rep_hour and naive_used else []) + (["fresh"] if has_fresh else []))
             try:
-                got = run_cell(inst, has_fresh, reprs)
+                got = run_cell(inst, has_fresh, reprs, directory)
             except Exception as e:
                 ctx.violation(key_case, f"[TZ={z} reprs={reprs}] run raised {e!r} cause {getattr(e, '__cause__', None)!r}",
                               key=classify(z, reprs, used, rep_hour))
@@ -190,6 +224,7 @@ def check_case(ctx, case, record=True, only=None):
                               key=classify(z, reprs, used, rep_hour))
     finally:
         set_tz("UTC")
+        shutil.rmtree(directory, ignore_errors=True)
 
 
 def classify(z, reprs, used, rep_hour):
